@@ -7,7 +7,7 @@ import numpy as np
 import torch
 import pypose as pp
 
-from ..core import rng, refmath
+from ..core import rng, refmath, boundary
 from ..core.outcome import Violation
 
 NAME = "imusim"
@@ -377,6 +377,7 @@ def execute(plan, prop, out, tr):
         m7 = pp.module.IMUPreintegrator(pos=pa, rot=ra, vel=va, gravity=c["gravity"], reset=True, **ctor_kw)
         m7 = m7.double() if dtype == torch.float64 else m7
         pa.add_(5.0); va.mul_(-3.0)                     # the caller re-uses its tensors
+        boundary.refresh(pa, va)
         mdef = pp.module.IMUPreintegrator()             # a default-constructed integrator ...
         with torch.no_grad():
             mdef.vel.add_(7.0); mdef.pos.add_(-2.0)    # ... whose buffers are written in place
